@@ -39,8 +39,13 @@ IO = 'chainables.io'
 
 
 def run(ctx: Ctx):
-  for r in (r1, r2, r3, r4, r6, r8, r9, r10, r11, r12):
+  for r in (r1, r2, r3, r4, r6, r8, r9, r10, r11, r12, r14):
     ctx.guard(r)
+  from mlmverif.props import c03
+  ctx.include('R-C10-13', '"the captured state": MultiplexIterator.state reads the positions of `_source_iterators` — the'
+              ' in-process chain over several sources iterates exactly these iterator objects (R-C03-1 input wiring); a chain'
+              ' that opens fresh iterators of the data sources leaves the recorded positions at their start, and a restored'
+              ' iterator repeats everything', c03.r1, min_instances=2)
   from mlmverif.props import c02
   ctx.include('R-C10-7', 'a restored pipeline continues with the WHOLE checkpointed'
               ' aggregation state: every (metric, slice) entry of the given'
@@ -756,12 +761,71 @@ def r8(ctx: Ctx):
   ctx.floor(rule, 1)
 
 
+def r14(ctx: Ctx):
+  rule = 'R-C10-14'
+  ctx.rule(rule, '"restoring gives an iterator that continues exactly" for chains of any length: when from_state rebuilds the'
+           ' list of stage iterators by walking upstream from the restored last stage, each step reads the upstream of the'
+           ' element at the END OF THE LIST IT EXTENDS — `L.insert(0, up)` takes `up` from `L[0]`, `L.append(up)` from'
+           ' `L[-1]`. Reading the other end repeats one stage instead of walking on: for three or more stages the list'
+           ' holds duplicates, the aggregates of the earlier stages vanish from agg_state / agg_result of the restored'
+           ' iterator')
+  repo = ctx.repo
+  n = 0
+  for fi in repo.all_functions():
+    if not fi.module.name.endswith(('chainables.transform', 'utils.iter_utils', 'chainables.io')) or fi.name != 'from_state':
+      continue
+    for lp in walk_no_nested(fi.node):
+      if not isinstance(lp, (ast.While, ast.For)):
+        continue
+      grows = [c for c in ast.walk(lp) if isinstance(c, ast.Call) and isinstance(c.func, ast.Attribute) and isinstance(
+          c.func.value, ast.Name) and ((c.func.attr == 'insert' and len(c.args) == 2) or (c.func.attr == 'append' and len(c.args) == 1))]
+      for gcall in grows:
+        lst = gcall.func.value.id
+        if gcall.func.attr == 'insert':
+          pos = gcall.args[0]
+          if not (isinstance(pos, ast.Constant) and pos.value == 0):
+            continue
+          end, val = 0, gcall.args[1]
+        else:
+          end, val = -1, gcall.args[0]
+        if not isinstance(val, ast.Name):
+          continue
+        # where does `val` come from inside the loop?
+        src = None
+        for x in ast.walk(lp):
+          if isinstance(x, ast.Assign) and any(isinstance(y, ast.Name) and y.id == val.id for t in x.targets for y in ast.walk(t)):
+            for sub in ast.walk(x.value):
+              if isinstance(sub, ast.Subscript) and isinstance(sub.value, ast.Name) and sub.value.id == lst:
+                src = sub
+        if src is None:
+          continue
+        n += 1
+        idx = src.slice
+        idxv = idx.value if isinstance(idx, ast.Constant) else (
+            -idx.operand.value if isinstance(idx, ast.UnaryOp) and isinstance(idx.op, ast.USub) and isinstance(idx.operand, ast.Constant) else None)
+        what = f'{fi.qualname}: the upstream walk reads the end of `{lst}` it extends'
+        if idxv == end:
+          ctx.ok(rule, fi, what, gcall)
+        else:
+          ctx.fail(rule, fi, what,
+                   f'`{unparse(gcall)}` extends `{lst}` at position {end}, but the element it adds is derived from'
+                   f' `{unparse(src)}`: the walk does not advance — with three or more stages the same stage is inserted'
+                   ' again and again and the earlier stages (with their aggregation state) are missing from the restored'
+                   ' iterator', node=src)
+  ctx.floor(rule, 1, n)
+
+
 from mlmverif.selfcheck import B, OK  # noqa: E402
 
 _F = 'chainables/io.py'
 _T = 'chainables/transform.py'
 _U = 'utils/iter_utils.py'
 VARIANTS = [
+    B('restore-walk-reads-the-wrong-end', 'chainables/transform.py',
+      '      (upstream,) = iterators[0].data_sources', '      (upstream,) = iterators[-1].data_sources', 'R-C10-14'),
+    OK('restore-walk-appends-then-reverses', 'chainables/transform.py',
+       '      (upstream,) = iterators[0].data_sources\n      iterators.insert(0, upstream)',
+       '      (upstream,) = iterators[0].data_sources\n      iterators = [upstream] + iterators'),
     B('rebatcher-peeks-one-input-ahead', _U,
       '  column_buffer = [[] for _ in range(num_columns)]\n  batch_sizes = np.zeros(num_columns, dtype=int)\n  exhausted = False',
       '  tuples = mit.peekable(tuples)\n  column_buffer = [[] for _ in range(num_columns)]\n  batch_sizes = np.zeros(num_columns, dtype=int)\n  exhausted = False', 'R-C10-12'),
